@@ -1,7 +1,7 @@
 (* The static walks over [listen] for the property monitors: each monitor accepts every M1
    trace of the handler, for every configuration, oracle behaviour, environment, inbox and
    timing. *)
-From Passage Require Import Lib.Bytes Codec.VarInt Codec.Desc Gen.PacketsGen Gen.ConstsGen
+From Passage Require Import Lib.Bytes Codec.VarInt Codec.Desc Codec.NoPanic Gen.PacketsGen Gen.ConstsGen
   Codec.PacketCheck Crypto.Cookie Conn.Types Conn.Prog Conn.Sem1 Conn.Monitor Conn.MonitorProofs
   Conn.Order Conn.OrderProofs Conn.Checks.
 
@@ -19,8 +19,8 @@ Lemma eqb_refl_bool b : Bool.eqb b b = true.
 Proof. destruct b; reflexivity. Qed.
 
 Ltac solve_errs2 :=
-  let o := fresh "o" in let Ho := fresh "Ho" in
-  intros o Ho; destruct o as [|?k|]; [congruence | destruct k; cbn; discriminate | cbn; discriminate].
+  let o := fresh "o" in let Ho := fresh "Ho" in let Hp := fresh "Hp" in
+  intros o Ho Hp; destruct o as [|?k|]; [congruence | destruct k; cbn; first [discriminate | congruence] | cbn; discriminate].
 
 Ltac norm_hyps :=
   repeat match goal with
@@ -57,6 +57,7 @@ Ltac innermost x :=
 Ltac cwalk_step :=
   first
   [ absurd_hyp
+  | no_panic
   | progress cbn
   | match goal with
     | He : internal _ ?e = true |- step_with _ _ ?e = Some _ =>
